@@ -75,6 +75,45 @@ impl SsuClient {
     }
 }
 
+/// a bare client-mode `SessionCodec` (public API of the library): what a client of its own would use to talk to
+/// the real server's udp port; `decode` also tells the ids the server put on its reply
+pub enum RawClient {
+    C16(SessionCodec<'static, 16>),
+    C32(SessionCodec<'static, 32>),
+}
+
+fn raw<const N: usize>(kind: CipherKind, password: &str) -> Result<SessionCodec<'static, N>> {
+    let (key, identity_keys): ([u8; N], Vec<[u8; N]>) = if kind.is_aead_2022() { password_to_exact_keys(password).map_err(|e| anyhow::anyhow!(e))? } else { (openssl_bytes_to_key(password.as_bytes()), Vec::new()) };
+    let key: &'static [u8; N] = Box::leak(Box::new(key));
+    let iks: &'static Vec<[u8; N]> = Box::leak(Box::new(identity_keys));
+    Ok(SessionCodec::new(Context::new(Mode::Client, None, key, iks), AEADCipherCodec::new(kind)))
+}
+
+impl RawClient {
+    pub fn new(cipher: &str, password: &str) -> Result<RawClient> {
+        let cfg: ServerConfig<sv::SslConfig> = server_config("shadowsocks", cipher, password, &[])?;
+        Ok(if is16(cipher) { RawClient::C16(raw::<16>(cfg.cipher, password)?) } else { RawClient::C32(raw::<32>(cfg.cipher, password)?) })
+    }
+
+    pub fn encode(&self, csid: u64, pid: u64, addr: Address, payload: &[u8]) -> Result<Vec<u8>> {
+        let mut dst = BytesMut::new();
+        match self {
+            RawClient::C16(c) => c.encode((BytesMut::from(payload), addr, Session::new(csid, 0, pid, None)), &mut dst)?,
+            RawClient::C32(c) => c.encode((BytesMut::from(payload), addr, Session::new(csid, 0, pid, None)), &mut dst)?,
+        }
+        Ok(dst.to_vec())
+    }
+
+    /// (client session id, server session id, packet id, payload)
+    pub fn decode(&self, wire: &[u8]) -> Option<(u64, u64, u64, Vec<u8>)> {
+        let mut src = BytesMut::from(wire);
+        match self {
+            RawClient::C16(c) => c.decode(&mut src).ok().flatten().map(|(d, _, s)| (s.client_session_id, s.server_session_id, s.packet_id, d.to_vec())),
+            RawClient::C32(c) => c.decode(&mut src).ok().flatten().map(|(d, _, s)| (s.client_session_id, s.server_session_id, s.packet_id, d.to_vec())),
+        }
+    }
+}
+
 pub enum SsuServer {
     S16(SessionCodec<'static, 16>, Arc<ServerUserManager<16>>),
     S32(SessionCodec<'static, 32>, Arc<ServerUserManager<32>>),
